@@ -41,6 +41,10 @@ Theorem lookup_innermost : forall s n v, Inv s ->
    exists i, entry s n i = Some v /\ forall j, i < j -> entry s n j = None).
 Proof. exact lookup_innermost_lemma. Qed.
 
+Example lookup_nonvacuous :
+  Inv ex_state /\ exists v, get ex_state A = Some v /\ vval v = Some (Scalar [51%N]).
+Proof. exact (conj ex_state_inv ex_state_get). Qed.
+
 Theorem lookup_none : forall s n, Inv s -> (get s n = None <-> forall i, entry s n i = None).
 Proof. exact get_none_lemma. Qed.
 
@@ -144,6 +148,11 @@ Theorem temp_assign_special_persists : forall ov oe n v s t s',
   exists w, get s' n = Some w /\ vval w = Some v.
 Proof. exact temp_special_lemma. Qed.
 
+Example temp_assign_special_nonvacuous :
+  exists t s', irun vset step (m_obs_vars [A; B]) (m_obs_env [A; B])
+                 (compile (CSpecial [(A, FIVE)])) ex_pre_state = (t, Finished, s').
+Proof. exact ex_special_runs. Qed.
+
 (* Function call: whatever the body does -- nested calls, typeset, unset,
    set --, temporary assignments -- as long as it does not assign, export,
    make read-only or unset the name [n] with global scope ([cmd_safe n]), after
@@ -168,6 +177,13 @@ Theorem globals_assigned_inside_persist : forall ov oe temps n v args s t s',
   exists w, get s' n = Some w /\ vval w = Some v.
 Proof. exact global_assign_persists_lemma. Qed.
 
+Example globals_assigned_inside_nonvacuous :
+  Inv ex_pre_state /\
+  exists t s', irun vset step (m_obs_vars [A; B]) (m_obs_env [A; B])
+                 (compile (CCall [(A, Scalar [55%N])] [CAssign [(A, FIVE)]] [])) ex_pre_state
+               = (t, Finished, s').
+Proof. exact (conj ex_pre_inv ex_global_persist_runs). Qed.
+
 (* The unconditional statement "an assignment prefixed to a regular built-in
    does not outlive it" is FALSE of the model when the built-in itself declares
    the same variable (typeset; the same mechanism applies to read): the
@@ -184,6 +200,17 @@ Theorem temp_assign_lifetime_typeset_refuted :
     exists w, get s' n = Some w /\ vval w = Some (Scalar [53%N]) /\ vexp w = true.
 Proof. exact typeset_temp_outlives. Qed.
 
+(* The same for `read` (POSIX regular built-in): after `a=5 read a` the
+   variable holds the line read AND is exported although the script never
+   exported it. *)
+Theorem temp_assign_lifetime_read_refuted :
+  exists temps n line t s',
+    irun vset step (m_obs_vars [[97%N]]) (m_obs_env [[97%N]]) (compile (CRead temps n line)) init
+      = (t, Finished, s') /\
+    In n (map fst temps) /\ get init n = None /\
+    exists w, get s' n = Some w /\ vval w = Some (Scalar line) /\ vexp w = true.
+Proof. exact read_temp_outlives. Qed.
+
 (* Scripts: the model and the stack of maps show the same observations at
    every probe (environments compared as duplicate-free sets). *)
 Theorem script_abs_commutes : forall names,
@@ -193,6 +220,36 @@ Theorem script_abs_commutes : forall names,
   end.
 Proof. exact script_sim. Qed.
 
+Example script_nonvacuous :
+  ((forall n, In n [A; B] -> ~ In EQ n) /\ NoDup [A; B]) /\
+  exists tm s', run_script [A; B] ex_script = (tm, Finished, s') /\ length tm = 3.
+Proof. exact (conj ex_names_ok ex_script_runs). Qed.
+
+(* ---- panic sites -------------------------------------------------------------------------- *)
+
+(* In a state satisfying the invariant the only operations that panic are the
+   pop of the base context (not expressible through the guards) and
+   get_or_new with Scope::Volatile when the topmost context is not volatile
+   (documented): `self.contexts[..]` is always in bounds, the `expect`s on the
+   regular context never fail. *)
+Theorem panic_free : forall s o,
+  Inv s -> step s o = None ->
+  (o = OPop /\ length (ctxs s) = 1) \/
+  (exists n ms, o = OGetOrNew n SVolatile ms /\ top_is_volatile (ctxs s) = false).
+Proof. exact panic_lemma. Qed.
+
+Theorem reads_never_panic : forall s n sc,
+  Inv s ->
+  (exists x, get_scoped s n sc = Some x) /\ (exists l, iter s sc = Some l) /\
+  (exists ps, positional_params s = Some ps).
+Proof. exact reads_total. Qed.
+
+(* The caller rules never reach either panic: every script of the command
+   language runs without a panic of the variable set. *)
+Theorem callers_never_panic : forall names cs,
+  match run_script names cs with (_, e, _) => e <> Panicked end.
+Proof. exact run_script_no_panic. Qed.
+
 (* ---- oracle soundness: no false alarms ------------------------------------------------------ *)
 
 (* Stream 1: whatever the model shows after an operation passes every clause of
@@ -201,6 +258,11 @@ Theorem oracle_sound : forall names s a r,
   Inv s -> Abs s a -> (forall n, stack_of s n <> [] -> In n names) ->
   oracle names a r (observe names s r) = true.
 Proof. exact oracle_sound_lemma. Qed.
+
+Example oracle_sound_nonvacuous :
+  Inv ex_state /\ (exists a, srun sinit ex_ops = Some a /\ Abs ex_state a) /\
+  (forall n, stack_of ex_state n <> [] -> In n [A]).
+Proof. exact (conj ex_state_inv (conj ex_state_abs ex_state_covers)). Qed.
 
 (* Stream 2: a shell that shows what the model shows gets verdict 0. *)
 Theorem script_oracle_sound : forall names cs,
@@ -232,6 +294,10 @@ Print Assumptions temp_assign_special_persists.
 Print Assumptions temp_assign_lifetime_function.
 Print Assumptions globals_assigned_inside_persist.
 Print Assumptions temp_assign_lifetime_typeset_refuted.
+Print Assumptions temp_assign_lifetime_read_refuted.
 Print Assumptions script_abs_commutes.
 Print Assumptions oracle_sound.
 Print Assumptions script_oracle_sound.
+Print Assumptions panic_free.
+Print Assumptions reads_never_panic.
+Print Assumptions callers_never_panic.
